@@ -253,6 +253,31 @@ func init() {
 		in.call(caller, token.NoPos, a[0], nil)
 		return in.tt.True
 	}
+	// Terminates(f, label): f must finish within the engine's instruction and
+	// recursion budgets; running out of either is reported as a violation
+	// "<label>:no-termination" (unbounded recursion / loop on this input).
+	intrinsics[rtPkg+"Terminates"] = func(in *Interp, caller *frame, _ *ssa.Function, a []Value) (res Value) {
+		label := in.argStr(a[1])
+		depth := in.depth
+		stack := len(in.callStack)
+		startSteps := in.steps
+		defer func() {
+			if r := recover(); r != nil {
+				if pa, ok := r.(pathAbort); ok && pa.kind == "budget" {
+					in.depth = depth
+					in.callStack = in.callStack[:stack]
+					in.steps = startSteps
+					in.syncPC()
+					in.res.addViolation(in, label+":no-termination", pa.detail, in.modelFor(nil))
+					res = in.tt.False
+					return
+				}
+				panic(r)
+			}
+		}()
+		in.call(caller, token.NoPos, a[0], nil)
+		return in.tt.True
+	}
 	intrinsics[rtPkg+"Join"] = func(in *Interp, _ *frame, _ *ssa.Function, a []Value) Value { return nil }
 	intrinsics[rtPkg+"PanicMsg"] = func(in *Interp, _ *frame, _ *ssa.Function, a []Value) Value {
 		if s, ok := in.scratch["lastPanic"].(string); ok {
